@@ -723,6 +723,9 @@ def monitored_run(spec, pids):
         cb_b.append(M.c04_boundary(s4))
     if "C09" in pids:
         cb_b.append(M.c09_boundary(s9))
+    s20 = {"viol": []}
+    if "C20" in pids:
+        cb_b.append(M.c20_boundary(s20))
     extra_b = []
 
     def on_gsc(tree, v):
@@ -763,6 +766,8 @@ def monitored_run(spec, pids):
     if "C11" in pids or "C12" in pids:
         o11, o12 = M.c11_c12(run)
         res["C11"], res["C12"] = o11, o12
+    if "C20" in pids:
+        res["C20"] = s20["viol"]
     if "C18" in pids:
         res["C18"] = M.c18(run) + [v for v in M.c06(run) if v["signature"].startswith("C18")]
     return run, res
